@@ -628,17 +628,44 @@ def run_problem(problem, cfg, tree=None, markers=None, want_trace=True):
             else:
                 os.environ['CELL_TYPE_MAPPER_VERIF_TRACE'] = old
         chunks = None
+        nodes = None
         if want_trace:
+            events = read_trace(d / 'trace')
             chunks = sorted(
                 (e['r0'], e['r1'], e['cell_ids'])
-                for e in read_trace(d / 'trace') if e['kind'] == 'chunk')
+                for e in events if e['kind'] == 'chunk')
+            nodes = [e for e in events if e['kind'] == 'node']
         left = sorted(x.name for x in (d / 'tmp').iterdir())
         out = res['json'] or {}
         return {'ok': res['ok'],
                 'error': None if res['ok'] else repr(res['error'])[:300],
                 'results': out.get('results'),
                 'out_tree': out.get('taxonomy_tree'),
-                'chunks': chunks, 'scratch_left': left}
+                'chunks': chunks, 'nodes': nodes, 'scratch_left': left}
+
+
+def flatten_root_genes_fail(problem, markers, nodes):
+    """with flatten the only vote is at the root and its marker genes must be
+    the union of ALL lists of the marker table (restricted to genes the query
+    and the reference have), whatever drop_level says.  nodes = the 'node'
+    events of the hook trace.  Returns a message or None."""
+    if not nodes:
+        return None
+    table = problem['markers'] if markers is None else markers
+    union = {g for k, v in table.items() if k not in ('log', 'metadata')
+             for g in v}
+    want = union & set(problem['query_genes']) & set(problem['ref_genes'])
+    for e in nodes:
+        if e.get('parent') is not None:
+            return 'flattened run votes under parent %r' % (e['parent'],)
+        got = set(e['query_genes'])
+        if got != want:
+            return ('root marker genes of the flattened run are not the '
+                    'union of all marker lists: missing %r, extra %r'
+                    % (sorted(want - got), sorted(got - want)))
+        if list(e['query_genes']) != list(e['reference_genes']):
+            return 'query and reference gene lists of the root differ'
+    return None
 
 
 def run_levels(tree, cfg):
